@@ -703,7 +703,10 @@ class ConcCheck(SeqCheck):
 
 CONC_TEXT = ('Theorems (Coq): release/acquire view machine (vector-clock race detector, stale reads) for the two- and three-stage pipeline: race freedom and the prefix property for every length, '
              'interleaving and stale read; the drop protocol for every schedule; bounded micro-programs. Closed against the orderings / structure regenerated from the source. '
-             'Tie: per-call atomic event traces (kind, location, ordering, value, data-before-publication probe) of the real crate compared with the model on every history.')
+             'Tie: per-call atomic event traces (kind, location, ordering, value, data-before-publication probe) of the real crate compared with the model on every history; '
+             'S-script / S-drop: executions of the extracted proved machines (interleavings, stale reads, window sizes, resets, detached phases, all drop schedules) replayed on the real '
+             'crate with OS threads under a scripted scheduler (their cases and atomic events are included in the evaluation counts, see notes.script_suite / notes.drop_suite); '
+             'machine tie (Props/KTie.v): the machines\' thread-local arithmetic equals the kernels translated from the source.')
 CHECKS['C02'] = ConcCheck('C02', is_c02, CONC_TEXT)
 CHECKS['C03'] = ConcCheck('C03', is_c03, CONC_TEXT)
 CHECKS['C07'] = ConcCheck('C07', is_c07, CONC_TEXT)
